@@ -470,6 +470,20 @@ def monitor_c12(ops, outs):
                            % (e.idx, e.t, seg["t0"], rec, e.out.split()[0], e.after))
     # a re-trip shields the backend anew: the C05 shield clause
     bad += [m for m in monitor_c05(ops, outs) if m.startswith("shield")]
+    # during recovery the breaker trips again iff the condition matches again (the C18 decision rule, recovering completions only)
+    try:
+        expr = parse_px(cfg["px"])
+        lat = {e.idx: b for e, b in latency_bounds(cfg, evs)}
+        for e, is_eval, verdict, tripped in evaluations(cfg, evs, expr, lat=lat):
+            if e.before != "recovering":
+                continue
+            if (tripped and not is_eval) or (is_eval and verdict is not None and tripped != verdict):
+                bad.append("retrip: line %d at t=%d during recovery the condition %s on the responses recorded since the last trip, but the breaker %s"
+                           % (e.idx, e.t, "matches" if verdict else "does not match (or is not due for evaluation)",
+                              "tripped again" if tripped else "did not trip"))
+                break
+    except Exception as ex:
+        bad.append("monitor-crash retrip %r" % (ex,))
     return bad
 
 
